@@ -6,7 +6,10 @@ T: curvature, Menger, DFDT (single pass and loop), L-method get_knee (Fit x Cost
 T (scale): the same detectors and options on built curves of 10^3 .. 1.1*10^5 points (long multi-step staircases whose
    two-line error is not unimodal, kinks at block seams / beyond 2^15, smooth and textured decays, unit and ragged
    abscissae), with SPARSE tables (the returned index, optimisers, seam neighbours, local optima; the reachable cutoffs of
-   the two refinement loops only), judged by Trace_DetectorsScale."""
+   the two refinement loops only), judged by Trace_DetectorsScale.
+T (integer magnitude): every detector and option on integer curves with ordinates of 10^10 .. 10^14 over integer abscissae
+   (steps 1 .. 10^7), each stored as int64 AND as its exact float64 twin; full tables from the float64 values with
+   magnitude-relative noise bands, judged by Trace_Detectors."""
 import math
 import random
 
@@ -622,6 +625,258 @@ def run_scale(ctx):
                 "case": {k: v for k, v in big.items() if k != "id"}})
 
 
+# ------------------------------------------------------------------------------------------------------ integer-magnitude family
+# Small (and a few long) INTEGER-valued curves with LARGE ordinates (a y axis in bytes: 10^10 .. 10^14) over integer abscissae
+# (steps 1 .. 10^7, x up to about 10^9), every detector and option, each case replayed twice: the array stored as int64 and
+# its float64 twin (all values are below 2^53, so the twin is exact).  The criterion tables are computed from the float64 values
+# exactly as in the small family and judged by the same Trace_Detectors module; the noise bands are relative to the
+# magnitudes (first-order rounding-error bounds of the criterion, see _mag_* below) instead of the absolute 1e-12.
+# Envelope (asserted by the builder): the squares of the ordinate differences exceed 2^63 (they wrap if squared in int64),
+# while every product of an ordinate with an abscissa difference stays below 2^61 - the unchanged library itself forms
+# y*(x1-x2) (uts.gradient.cfd) and dx*dy (menger numerator) in the array's dtype, so larger mixed products are outside
+# what any detector handles for integer arrays and would only report that known limitation.
+_MAG_PAT = {"unit": [1], "x4": [4], "ragged": [1, 2, 1, 3, 1, 1, 2]}
+
+
+def _mag_build(spec):
+    """spec -> (n, 2) int64, strictly increasing x >= 0, y >= 0, all values < 2^53, inside the envelope above"""
+    n, Y, sx = int(spec["n"]), int(spec["Y"]), int(spec["sx"])
+    steps = scale.tile(_MAG_PAT[spec["x"]], n - 1).astype(np.int64) * sx
+    xs = int(spec.get("x0", 0)) + np.concatenate([[0], np.cumsum(steps)]).astype(np.int64)
+    i = np.arange(n, dtype=np.int64)
+    t = (xs - xs[0]) / float(xs[-1] - xs[0])
+    b = spec["b"]
+    if b == "hyp":                                   # Y // (1 + a*i): a miss-ratio style curve in bytes
+        y = Y // (1 + int(spec["a"]) * i)
+    elif b == "exp":
+        y = np.floor(Y * np.exp(-spec["a"] * t)).astype(np.int64)
+    elif b == "pow":
+        y = np.floor(Y * (1.0 - t) ** spec["a"]).astype(np.int64)
+    elif b == "pl":                                  # multi-step staircase (knots in 0..1000) with an integer texture
+        y = np.floor(Y / 1000.0 * np.interp(t, [k[0] for k in spec["knots"]], [k[1] for k in spec["knots"]])).astype(np.int64)
+        y = y + (Y // 997) * ((i * i) % 7)
+    elif b == "kink":                                # convex decay with one sharp kink at index p
+        y = np.floor(Y * (1.0 - i / float(n)) ** 2 + (Y / 3.0 / n) * np.maximum(0, spec["p"] - i)).astype(np.int64)
+    else:
+        raise ValueError(b)
+    fl = spec.get("flip", "")
+    if "h" in fl:
+        y = y[::-1]
+    if "v" in fl:
+        y = y.max() - y
+    P = np.ascontiguousarray(np.column_stack([xs, y - min(0, int(y.min()))]).astype(np.int64))
+    dx2 = int(np.max(xs[2:] - xs[:-2])) if n > 2 else int(xs[-1] - xs[0])
+    assert P.shape == (n, 2) and np.all(np.diff(P[:, 0]) > 0) and P.min() >= 0 and int(P.max()) < 2 ** 53
+    assert int(P[:, 1].max()) * dx2 < 2 ** 61 and dx2 * dx2 < 2 ** 61, "outside the integer envelope"
+    return P
+
+
+def _mag_grad_err(x, y):
+    """first-order bounds of the rounding error of cfd / csd evaluated in float64 on these values (by index; the two end
+    values of cfd come from the same three terms as their neighbours): 8 eps * sum of the magnitudes of the Lagrange terms"""
+    x0, x1, x2, y0, y1, y2 = x[:-2], x[1:-1], x[2:], y[:-2], y[1:-1], y[2:]
+    a, b, c = 1.0 / np.abs((x0 - x1) * (x0 - x2)), 1.0 / np.abs((x1 - x0) * (x1 - x2)), 1.0 / np.abs((x2 - x0) * (x2 - x1))
+    span = x2 - x0
+    t1 = (np.abs(y0) * a + np.abs(y1) * b + np.abs(y2) * c) * 2.0 * span
+    t2 = 2.0 * (np.abs(y0) * a + np.abs(y1) * b + np.abs(y2) * c)
+    e1, e2 = 8.0 * _EPS * t1, 8.0 * _EPS * t2
+    return np.concatenate([[e1[0]], e1, [e1[-1]]]), np.concatenate([[e2[0]], e2, [e2[-1]]])
+
+
+def _record_mag(item):
+    import kneeliverse.curvature as cu
+    import kneeliverse.dfdt as df
+    import kneeliverse.menger as me
+    import kneeliverse.lmethod as lm
+    import uts.gradient as grad
+    import uts.thresholding as th
+    cid, spec, what, dtype = item
+    what = tuple(what) if isinstance(what, list) else what
+    PI = _mag_build(spec)
+    P = PI.astype(float)                         # exact; the criteria are computed from these float64 values
+    x, y = P[:, 0].copy(), P[:, 1].copy()
+    n = len(P)
+    PC = PI.copy() if dtype == "int64" else P.copy()
+    xc, yc = PC[:, 0].copy(), PC[:, 1].copy()
+    _WIDE[0] = False
+    dy = np.abs(np.diff(PI[:, 1]))
+    meta = {"spec": spec, "what": what, "dtype": dtype, "n": n, "sq_wraps": bool(int(dy.max()) ** 2 >= 2 ** 63), "nt": False,
+            "xmax": int(PI[:, 0].max())}
+    B, W = 3000 * n + 20000, 30
+
+    def base(kind, res, lo_ok=1, hi_ok=None):
+        o, v, _ = res
+        c = {"id": cid, "kind": kind, "n": n, "outcome": o, "result": -1, "lo_ok": lo_ok, "hi_ok": n - 2 if hi_ok is None else hi_ok}
+        if o == "returned":
+            if isinstance(v, tuple):
+                v = v[0]
+            c["result"] = int(v) if v is not None else -1
+        else:
+            meta["error"] = v
+        return c
+
+    def rk(v, ab, rel=1e-8):
+        return [int(k) for k in _nranks(v, rel, ab)]
+
+    def argset(v, ab, rel=1e-8):
+        r = _nranks(v, rel, ab)
+        if np.any(r < 0):
+            return list(range(len(v)))
+        return [int(k) for k in np.flatnonzero(r == r.min())]
+
+    if what == "curvature":
+        c = base("argopt", monitor.call(cu.knee, (PC,), budget=B, wall=W))
+        g1, g2 = grad.cfd(x, y), grad.csd(x, y)
+        crit = np.absolute(g2) / ((1.0 + g1 ** 2.0) ** 1.5)
+        e1, e2 = _mag_grad_err(x, y)
+        err = e2 / ((1.0 + g1 ** 2.0) ** 1.5) + crit * 3.0 * np.abs(g1) * e1 / (1.0 + g1 ** 2.0)
+        ab = 16.0 * float(np.max(err[1:-1])) + 1e-9 * float(np.max(crit[1:-1]))
+        c.update(det="curvature", sense="max", lo=1, hi=n - 2, rank=[-1] + rk(crit[1:-1], ab) + [-1])
+    elif what == "menger":
+        c = base("argopt", monitor.call(me.knee, (PC,), budget=B, wall=W), lo_ok=0)
+        f, g, h = P[:-2], P[1:-1], P[2:]
+        p1, p2 = (g[:, 0] - f[:, 0]) * (h[:, 1] - f[:, 1]), (h[:, 0] - f[:, 0]) * (g[:, 1] - f[:, 1])
+        den = np.hypot(*(g - f).T) * np.hypot(*(h - g).T) * np.hypot(*(h - f).T)
+        with np.errstate(invalid="ignore", divide="ignore"):
+            crit = np.concatenate([[0.0], np.where(den > 0, 2.0 * np.abs(p1 - p2) / den, np.nan), [0.0]])
+            err = 16.0 * _EPS * 2.0 * (np.abs(p1) + np.abs(p2)) / den
+        ab = 8.0 * float(np.nanmax(err)) + 1e-9 * float(np.nanmax(crit))
+        c.update(det="menger", sense="max", lo=0, hi=n - 1, rank=rk(crit, ab))
+    elif what in ("dfdt_get", "dfdt"):
+        g = grad.cfd(x, y)
+        e1, _ = _mag_grad_err(x, y)
+        if what == "dfdt_get":
+            c = base("argopt", monitor.call(df.get_knee, (xc, yc), budget=B, wall=W))
+            d = np.absolute(g - th.isodata(g))
+            ab = 32.0 * float(np.max(e1)) + 1e-9 * float(np.max(d))
+            c.update(det="dfdt.get_knee", sense="min", lo=1, hi=n - 2, rank=[-1] + rk(d[1:-1], ab) + [-1])
+        else:
+            c = base("dfdt", monitor.call(df.knee, (PC,), budget=B, wall=W))
+            G = []
+            for cut in range(0, n):
+                if n - cut > 2:
+                    gg = g[cut:]
+                    d = np.absolute(gg - th.isodata(gg))
+                    ab = 32.0 * float(np.max(e1[cut:])) + 1e-9 * float(np.max(d))
+                    G.append([cut + 1 + k for k in argset(d[1:-1], ab)])
+                else:
+                    G.append([])
+            c["G"] = G
+            meta["nt"] = True
+    else:
+        # the residuals are differences of numbers of size |y| + |slope * x|: their rounding noise is relative to that size
+        S = float(np.max(np.abs(y))) + float(np.max(np.abs(np.diff(y) / np.diff(x)))) * float(np.max(np.abs(x)))
+
+        def lranks(xp, yp, fitn, cost):
+            E = np.array([_lerr(xp, yp, k, fitn, cost) for k in range(2, len(xp) - 2)])
+            rel, ab = _lband(len(xp), np.array([S]), cost, float(np.nanmin(E)) if not np.all(np.isnan(E)) else 0.0)
+            return E, rel, ab
+
+        if what[0] == "lget":
+            fit, cost = enums.pick(lm.Fit, what[1]), enums.pick(lm.Cost, what[2])
+            c = base("argopt", monitor.call(lm.get_knee, (xc, yc, fit, cost), budget=B, wall=W), lo_ok=2, hi_ok=n - 3)
+            E, rel, ab = lranks(x, y, what[1], what[2])
+            length = x[-1] - x[0]
+            lib = [float(lm.compute_error(x, y, k, length, fit, cost)[0]) for k in range(2, n - 2)]
+            tol = ab + 1e-9 * (1.0 + float(np.max(np.abs(E))))
+            if not all(numeric.close(a, b2, rel=1e-6, ab=tol) for a, b2 in zip(E, lib)):
+                meta["drift"] = "lmethod.compute_error differs from the independent criterion (large integer curve): %s vs %s" % (lib[:4], list(E[:4]))
+            c.update(det="lmethod.get_knee(%s,%s)" % (what[1], what[2]), sense="min", lo=2, hi=n - 3,
+                     rank=[-1, -1] + rk(E, ab, max(rel, 1e-8)) + [-1, -1])
+        else:  # ("lknee", fit, mode, limit)
+            fit, mode, limit = enums.pick(lm.Fit, what[1]), enums.pick(lm.Refinement, what[2]), what[3]
+            c = base("lknee", monitor.call(lm.knee, (PC, fit, mode, limit), budget=B, wall=W), lo_ok=1)
+            A = []
+            for cut in range(0, n + 1):
+                xp, yp = x[0:cut + 1], y[0:cut + 1]
+                if len(xp) < 5:
+                    A.append([])
+                    continue
+                E, rel, ab = lranks(xp, yp, what[1], "rmse")
+                A.append([2 + k for k in argset(E, ab, max(rel, 1e-8))])
+            c.update(A=A, mode=what[2], limit=limit)
+            meta["nt"] = True
+    if c["kind"] == "argopt":
+        meta["nt"] = len(set(v for v in c["rank"][c["lo"]:c["hi"] + 1] if v >= 0)) >= 2
+    return c, meta
+
+
+def _mag_items(ctx):
+    rng = ctx.rng
+    q = ctx.quick
+    items = []
+
+    def spec_for(n):
+        Y = int(rng.choice([2, 5, 10, 20, 50, 100]) * 10 ** rng.choice([10, 11, 11, 12, 12]))            # 2*10^10 .. 10^14 (bytes)
+        xp = rng.choice(["unit", "x4", "ragged"])
+        top = max(_MAG_PAT[xp]) * 2
+        sxs = [s for s in (1, 1, 10, 1000, 10 ** 5, 10 ** 6, 10 ** 7) if Y * top * s < 2 ** 60 and s * (n + 2) * top < 4 * 10 ** 9]
+        sp = {"n": n, "Y": Y, "x": xp, "sx": rng.choice(sxs), "x0": rng.choice([0, 0, 1, 1000])}
+        b = rng.choice(["hyp", "hyp", "exp", "pow", "pl", "kink"])
+        sp["b"] = b
+        if b == "hyp":
+            sp["a"] = rng.choice([1, 2, 4, 9])
+        elif b == "exp":
+            sp["a"] = rng.choice([3.0, 6.0, 12.0])
+        elif b == "pow":
+            sp["a"] = rng.choice([2.0, 3.0, 5.0])
+        elif b == "pl":
+            sp["knots"] = rng.choice(list(_STAIRS.values()) + [_rand_knots(rng)])
+        else:
+            sp["p"] = rng.randrange(1, n - 1)
+        sp["flip"] = rng.choice(["", "", "", "h", "v", "hv"])
+        return sp
+
+    lgets = [("lget", f, c) for f in ("pointfit", "bestfit") for c in ("rss", "rmse")]
+    lknees = [("lknee", f, m, lim) for f in ("pointfit", "bestfit") for m in ("none", "original", "adjusted") for lim in (4, 5, 10)]
+    sizes = [rng.randrange(5, 65) for _ in range(36 if q else 300)] + [3, 4, 5, 40]
+    sizes += [257 + rng.randrange(0, 60), 1025 + rng.randrange(0, 200)] + ([] if q else [257 + rng.randrange(0, 60), 4097 + rng.randrange(0, 400)])
+    for n in sizes:
+        sp = spec_for(n)
+        if n == 40:   # the documented shape of a byte-count miss-ratio curve
+            sp = {"n": 40, "Y": 2 * 10 ** 12, "x": "x4", "sx": 1, "x0": 0, "b": "hyp", "a": rng.choice([2, 4, 9]), "flip": ""}
+        ws = ["curvature", "menger", "dfdt_get"] + (["dfdt"] if n <= 1500 else [])
+        if 5 <= n <= 64:
+            ws += rng.sample(lgets, 2) + rng.sample(lknees, 2)
+        elif 5 <= n <= 400:
+            ws += [("lget", "pointfit", rng.choice(["rss", "rmse"]))]          # (a full refinement table is cubic in n)
+        for w in ws:
+            for dt in ("int64", "float64"):
+                items.append(("m%d" % len(items), sp, w, dt))
+    return items
+
+
+def run_mag(ctx):
+    items = _mag_items(ctx)
+    rec = par.pmap(_record_mag, items)
+    cases = [c for c, _ in rec]
+    meta = {c["id"]: m for c, m in rec}
+    rej = ctx.trace("Trace_Detectors", cases, chunk=400)
+    agg = {"cases": len(cases), "int64_calls": 0, "int64_calls_where_a_squared_ordinate_difference_exceeds_2^63": 0, "non_trivial": 0,
+           "largest_ordinate": 0, "largest_abscissa": 0, "by_detector": {}, "sizes": sorted(set(m["n"] for m in meta.values()))}
+    for c in cases:
+        m = meta[c["id"]]
+        w = m["what"] if isinstance(m["what"], str) else ":".join(str(v) for v in m["what"][:3])
+        agg["by_detector"][w] = agg["by_detector"].get(w, 0) + 1
+        agg["int64_calls"] += m["dtype"] == "int64"
+        agg["int64_calls_where_a_squared_ordinate_difference_exceeds_2^63"] += m["dtype"] == "int64" and m["sq_wraps"]
+        agg["non_trivial"] += m["nt"]
+        agg["largest_ordinate"] = max(agg["largest_ordinate"], m["spec"]["Y"])
+        agg["largest_abscissa"] = max(agg["largest_abscissa"], m["xmax"])
+        ctx.count(("magnitude", m["spec"], str(m["what"]), m["dtype"]), m["nt"])
+        if "drift" in m:
+            ctx.note("DRIFT: " + m["drift"][:300])
+    ctx.extra["integer_magnitude"] = agg
+    for cid, vs in rej.items():
+        m = meta[cid]
+        ctx.violation(vs[0][0], {"kind": "M", "spec": m["spec"], "what": m["what"], "dtype": m["dtype"], "cid": cid},
+                      {"verdict": vs[0][:6], "error": m.get("error"), "family": "integer-magnitude", "n": m["n"], "dtype": m["dtype"]},
+                      match=_match(vs[0][0], m["what"]))
+    big = max(cases, key=lambda c: (meta[c["id"]]["dtype"] == "int64" and meta[c["id"]]["nt"] and c["n"] <= 40, c["n"] if c["n"] <= 40 else 0))
+    ctx.sample({"binding": "T", "family": "integer-magnitude", "spec": meta[big["id"]]["spec"], "dtype": meta[big["id"]]["dtype"],
+                "call": meta[big["id"]]["what"], "case": {k: v for k, v in big.items() if k != "id"}})
+
+
 def inputs(ctx):
     rng = ctx.rng
     items = []
@@ -705,7 +960,12 @@ def run(ctx):
                 "10^3 .. 1.1*10^5 points (L-method: 1.5*10^3 .. 3.9*10^4 quick / 1.05*10^5 thorough, best fit up to 10^4 / 3.9*10^4) - "
                 "long multi-step staircases whose two-line error is not unimodal, kinks at block seams and beyond 2^15, smooth / "
                 "textured decays, unit and ragged abscissae - judged by Trace_DetectorsScale on sparse tables (returned index, "
-                "optimisers, seam neighbours, local optima; reachable cutoffs of the two refinement loops)")
+                "optimisers, seam neighbours, local optima; reachable cutoffs of the two refinement loops); "
+                "integer-magnitude family: the same detectors and options on integer-valued curves (hyperbolic byte-count curves, "
+                "exponential / power decays, textured staircases, kinks; flips; 3 <= n <= 64 plus sizes just above 256 / 1024 / 4096 "
+                "for the linear detectors and the point-fit scan) with ordinates up to 2*10^10 .. 10^14 over unit / x4 / ragged integer "
+                "abscissae scaled by 1 .. 10^7, each replayed as an int64 array and as its exact float64 twin, with full tables "
+                "computed from the float64 values and judged by Trace_Detectors (same clauses as the small family)")
     ctx.assumptions += numeric.ASSUMPTIONS + [
         "criteria are recomputed by the harness from the stated formulas: uts.gradient.cfd/csd and |f''|/(1+f'^2)^1.5; "
         "|gradient - uts.thresholding.isodata(gradient)| per reachable cutoff; 2|cross|/(product of side lengths); "
@@ -717,7 +977,12 @@ def run(ctx):
         "scale family: the two-line error on n points is ranked with the noise band rel 1e-9 + 8 n eps / abs 64 eps sqrt(n) max|y| "
         "(RSS form: the band of the square); only the selected indices of a rank vector reach TLC, their ranks are those of the "
         "full vector; a refinement / DFDT case whose reachable tie sets cannot be enumerated (a tie set of more than 6 / 8 "
-        "members, e.g. an exactly straight prefix, or more than 24 / 200 reachable prefixes) pins termination and interiority only"]
+        "members, e.g. an exactly straight prefix, or more than 24 / 200 reachable prefixes) pins termination and interiority only",
+        "integer-magnitude family: squared ordinate differences exceed 2^63 but every product of an ordinate with an abscissa "
+        "difference stays below 2^61 (the library itself forms y*(x1-x2) in uts.gradient.cfd and dx*dy in the Menger numerator in "
+        "the array's dtype, so larger mixed products of int64 arrays are outside what the detectors handle); ranks are merged "
+        "within rel 1e-8 plus an absolute band of 8..32 times the first-order rounding-error bound of the criterion on these "
+        "magnitudes (sum of the magnitudes of the cancelling terms times eps) instead of the absolute 1e-12"]
     ctx.mc("LRefine", "MC_LRefine", need_actions=("LStep", "LEnd", "DStep", "DEnd"))
     ctx.mc("LRefine", "MC_LRefine_unguarded", expect="<temporal>")
     ctx.mc("LRefine", "MC_LRefine_prevguard", expect="<temporal>")     # a 2-cycle guard admits a cycle of length 3
@@ -743,6 +1008,7 @@ def run(ctx):
                       match="%s:%s" % (vs[0][0], w if isinstance(w, str) else ":".join(str(v) for v in w[:3])))
     ctx.sample({"binding": "T", "call": meta[cases[3]["id"]]["what"], "case": {k: v for k, v in cases[3].items() if k != "id"}})
     run_scale(ctx)
+    run_mag(ctx)
 
 
 def replay(ctx, obj):
@@ -752,6 +1018,11 @@ def replay(ctx, obj):
         case, m = _record_scale((c.get("cid", "replay"), c["spec"], w))
         for cid, vs in _validate_scale(ctx, [case], selftest=False).items():
             ctx.violation(vs[0][0], c, {"verdict": vs[0][:6], "error": m.get("error"), "family": "scale", "n": m["n"]})
+        return
+    if c.get("kind") == "M":
+        case, m = _record_mag((c.get("cid", "replay"), c["spec"], w, c["dtype"]))
+        for cid, vs in ctx.trace("Trace_Detectors", [case]).items():
+            ctx.violation(vs[0][0], c, {"verdict": vs[0][:6], "error": m.get("error"), "family": "integer-magnitude", "n": m["n"], "dtype": m["dtype"]})
         return
     case, m = _record((c.get("cid", "replay"), c["points"], tuple(w) if isinstance(w, list) else w))
     rej = ctx.trace("Trace_Detectors", [case])
